@@ -2,3 +2,5 @@ pub mod from_proto;
 pub mod server;
 pub mod to_proto;
 pub mod vfs;
+#[cfg(feature = "verif")]
+pub mod verif;
